@@ -8,7 +8,7 @@ from . import arena, build, tlc
 
 
 from .engines_common import Result  # noqa: E402
-from . import handlers, tok, printf, alloc, threads, p2, sort, norm, mbs, ts, erase, osenv  # noqa: E402
+from . import handlers, tok, printf, alloc, threads, p2, sort, norm, mbs, ts, erase, osenv, testtrace  # noqa: E402
 
 
 # --------------------------------------------------------------------------------------
@@ -152,7 +152,12 @@ def _is_safety(prop, why):
     return any(why == w or why.endswith(":" + w) or why.endswith(w) for w in SAFETY_WHY.get(prop, ()))
 
 
+TESTTRACE_PROPS = {"C01", "C02", "C03", "C04", "C05", "C06", "C07", "C08"}
+
+
 def add_safety(prop, tier, seed, workdir, res):
+    if prop in TESTTRACE_PROPS:
+        testtrace.run_props(prop, tier, seed, workdir, res)      # the repository's own tests as a conformance corpus
     if prop not in SAFETY_WHY:
         return res
     extra = 0
@@ -207,6 +212,7 @@ def run_c07(prop, tier, seed, workdir):
             st += r["distinct"]
             tr += r["states"]
     res = run_arena(prop, tier, seed, workdir)
+    add_safety(prop, tier, seed, workdir, res)
     res.coverage["states"] += st
     res.coverage["transitions"] += tr
     res.coverage["algorithm_layer_states"] = st
@@ -264,6 +270,8 @@ def replay(prop, path, workdir):
         res = printf.replay(rp, workdir)
         res.violations = [v for v in res.violations if prop in v.get("props", [prop])]
         return res
+    elif rp["kind"] == "testtrace":
+        return testtrace.replay(rp, workdir, prop)
     elif rp["kind"] == "osenv":
         return osenv.replay(rp, workdir, prop)
     elif rp["kind"] == "erase":
